@@ -331,3 +331,319 @@ def r38_zone_sign_consumers(ctx):
 
 RULES = {"R35": r35_fraction_digits, "R36": r36_none_vs_zero,
          "R37": r37_shared_config, "R38": r38_zone_sign_consumers}
+
+
+# ------------------------------------------------------------------- R39
+MAGIC = {7, 12, 24, 28, 29, 30, 31, 52, 53, 60, 360, 365, 366, 1440, 3600,
+         86400}
+
+
+def r39_no_magic_lengths(ctx):
+    """Calendar computations take month/year/week lengths and radices from
+    the Calendar singleton (so that they follow the active mode), never from
+    literals: a literal 31 or 12 is right for one calendar only."""
+    rep = ctx.rep
+    rule = "R39.no-magic-lengths"
+    rep.need_anchor(rule, "calendar functions")
+    m = ctx.model.modules["data"]
+    n_funcs = 0
+    for f in ctx.model.all_functions():
+        if f.module is not m:
+            continue
+        if f.cls is not None and f.cls.name == "Calendar":
+            continue
+        n_funcs += 1
+        hits = []
+        for n in walk_no_nested(f.node):
+            if isinstance(n, ast.Constant) and isinstance(n.value, int) and \
+                    not isinstance(n.value, bool) and n.value in MAGIC:
+                p = parent(n)
+                # keyword defaults / docstrings are not computations
+                if isinstance(p, ast.keyword) and p.arg in ("maxsize",):
+                    continue
+                hits.append(n)
+        for n in hits:
+            rep.violation(
+                rule, ctx.fkey(f, None, "literal:%s" % n.value), f.loc(n),
+                "%s computes with the literal %d; month, year and week "
+                "lengths and the time radices must come from the Calendar "
+                "singleton so that they follow the active calendar mode "
+                "(a December of 31 days or a year of 12x31... is right for "
+                "one calendar only)" % (f.qual, n.value),
+                ("C03", "C15", "C01"))
+    rep.anchor(rule, "calendar functions", n_funcs)
+    rep.ok(rule, "data.py:no-magic-lengths", "-",
+           "%d functions of data.py compute with no literal month/year/week "
+           "length or time radix" % n_funcs, ("C03", "C15", "C01"))
+
+
+# ------------------------------------------------------------------- R40
+from ..fdai import Engine, Plugin, freeze, thaw    # noqa: E402
+
+UNIT_ONLY = ("_years", "_months", "_days", "_hours", "_minutes", "_seconds")
+
+
+class _FormPlugin(Plugin):
+    """Duration form typestate for `self`: W0 (week form, zero weeks), W+
+    (week form, non-zero), U (unit form).  In week form every unit slot is
+    None; in unit form _weeks is None."""
+
+    is_exact_shape = False
+
+    def __init__(self, f):
+        self.f = f
+        self.selfn = f.self_name
+        self.bad = []
+
+    def _form(self, d):
+        return d.get("$form")
+
+    def eval(self, e, d):
+        if e is None:
+            return None
+        form = self._form(d)
+        for n in ast.walk(e):
+            if isinstance(n, ast.Attribute) and isinstance(
+                    n.value, ast.Name) and n.value.id == self.selfn and \
+                    isinstance(n.ctx, ast.Load):
+                p = parent(n)
+                # presence tests are fine
+                if isinstance(p, ast.Compare) and any(
+                        isinstance(o, (ast.Is, ast.IsNot)) for o in p.ops):
+                    continue
+                arith = isinstance(p, (ast.BinOp, ast.Tuple, ast.AugAssign,
+                                       ast.Starred)) or (
+                    isinstance(p, ast.Compare))
+                if not arith:
+                    continue
+                if form in ("W0", "W+") and n.attr in UNIT_ONLY:
+                    self.bad.append((n, form))
+                if form == "U" and n.attr == "_weeks":
+                    self.bad.append((n, form))
+        return None
+
+    def refine(self, test, d):
+        form = self._form(d)
+        t = U(test)
+        s = self.selfn
+        if t in ("%s.get_is_in_weeks()" % s, "%s._weeks is not None" % s):
+            return ([d], []) if form in ("W0", "W+") else ([], [d])
+        if t == "%s._weeks is None" % s:
+            return ([d], []) if form == "U" else ([], [d])
+        if t == "%s._weeks" % s:
+            return ([d], []) if form == "W+" else ([], [d])
+        if t == "%s.is_exact()" % s:
+            # is_exact() is `not (years or months)` (shape verified by the
+            # rule): in week form both are None, so it is always true there
+            if form in ("W0", "W+") and self.is_exact_shape:
+                return [d], []
+            return [d], [dict(d)]
+        self.eval(test, d)
+        return [d], [dict(d)]
+
+
+def r40_duration_form(ctx):
+    rep = ctx.rep
+    rule = "R40.duration-form"
+    dur = ctx.model.cls("Duration")
+    rep.need_anchor(rule, "form-dispatching methods")
+    ie = dur.methods.get("is_exact")
+    if ie is not None:
+        ifs = [n for n in walk_no_nested(ie.node) if isinstance(n, ast.If)]
+        _FormPlugin.is_exact_shape = (
+            len(ifs) == 1 and isinstance(ifs[0].test, ast.BoolOp) and
+            isinstance(ifs[0].test.op, ast.Or) and
+            {U(v) for v in ifs[0].test.values} == {
+                ie.self_name + "._years", ie.self_name + "._months"} and
+            U(ifs[0].body[0]) == "return False")
+    for name in ("__hash__", "__eq__", "get_days_and_seconds",
+                 "_get_non_nominal_seconds", "get_seconds", "to_days",
+                 "to_weeks", "__floordiv__"):
+        f = dur.methods.get(name)
+        if f is None:
+            continue
+        rep.anchor(rule, "form-dispatching methods")
+        found = {}
+        for form in ("W0", "W+", "U"):
+            p = _FormPlugin(f)
+            Engine(p).run(f.node.body, {freeze({"$form": form})})
+            for n, fm in p.bad:
+                found.setdefault((n.attr, n.lineno), set()).add(fm)
+        props = ("C11",) if name not in ("to_days", "get_seconds") else (
+            "C11", "C01")
+        if not found:
+            rep.ok(rule, ctx.fkey(f, None, "form-safe"), f.loc(),
+                   "%s reads week-form and unit-form slots only in the form "
+                   "that defines them (zero weeks included)" % name, props)
+        for (attr, line), forms in sorted(found.items()):
+            rep.violation(
+                rule, ctx.fkey(f, None, "none-slot:%s" % attr),
+                "%s:%s" % (f.module.relpath.split("/")[-1], line),
+                "Duration.%s computes with self.%s in the %s form, where "
+                "that slot is None: the week-form test must be "
+                "`get_is_in_weeks()` / `_weeks is not None` (a truthiness "
+                "test takes zero weeks, e.g. P1W - P1W, for the unit form "
+                "and then hashes/compares None fields)" % (
+                    name, attr, "/".join(sorted(
+                        {"W0": "zero-week", "W+": "week",
+                         "U": "unit"}[x] for x in forms))), props)
+
+
+# ------------------------------------------------------------------- R41
+def r41_mixed_rounding(ctx):
+    """Splitting a quantity into (whole units, remainder) must use one
+    rounding: divmod / `//` with `%` (floor).  `int(x / k)` (truncation)
+    next to `x % k` (floor) disagrees for negative x."""
+    rep = ctx.rep
+    rule = "R41.mixed-rounding"
+    rep.need_anchor(rule, "functions")
+    n_f = 0
+    for f in ctx.model.all_functions():
+        n_f += 1
+        truncs, mods = [], []
+        for n in walk_no_nested(f.node):
+            if isinstance(n, ast.Call) and U(n.func) == "int" and n.args and \
+                    isinstance(n.args[0], ast.BinOp) and isinstance(
+                        n.args[0].op, ast.Div):
+                truncs.append((U(n.args[0].left), U(n.args[0].right), n))
+            if isinstance(n, ast.BinOp) and isinstance(n.op, ast.Mod) and \
+                    not isinstance(n.left, ast.Constant):
+                mods.append((U(n.left), U(n.right), n))
+        for a, k, n1 in truncs:
+            for b, k2, n2 in mods:
+                if a == b and k == k2:
+                    rep.violation(
+                        rule, ctx.fkey(f, None, "trunc-vs-floor:%s" % a),
+                        f.loc(n1),
+                        "%s splits `%s` into int(%s / %s) (truncation "
+                        "towards zero) and %s %% %s (floor): for negative "
+                        "values the two parts belong to different quotients "
+                        "(e.g. one second before the epoch lands a day "
+                        "late)" % (f.qual, a, a, k, b, k2),
+                        ("C18", "C11", "C01", "C04"))
+    rep.anchor(rule, "functions", n_f)
+    rep.ok(rule, "package:rounding", "-",
+           "no function pairs int(x / k) with x % k", ("C18", "C11"))
+
+
+# ------------------------------------------------------------------- R42
+def r42_dst_condition(ctx):
+    """The daylight offset (time.altzone) is used only when daylight saving
+    is both defined for the zone (time.daylight) and in effect now
+    (localtime().tm_isdst)."""
+    rep = ctx.rep
+    rule = "R42.dst-condition"
+    f = ctx.func("timezone.get_local_time_zone")
+    rep.need_anchor(rule, "altzone reads")
+    reads = [n for n in walk_no_nested(f.node)
+             if isinstance(n, ast.Attribute) and n.attr == "altzone"]
+    if not reads:
+        rep.error("R42", "get_local_time_zone: no read of time.altzone")
+        return
+    for n in reads:
+        rep.anchor(rule, "altzone reads")
+        conds = []
+        child = n
+        for a in ancestors(n):
+            if isinstance(a, ast.If) and any(
+                    child is x or any(child is y for y in ast.walk(x))
+                    for x in a.body):
+                conds.append(U(a.test))
+            if isinstance(a, ast.IfExp) and (
+                    child is a.body or any(child is y
+                                           for y in ast.walk(a.body))):
+                conds.append(U(a.test))
+            child = a
+        txt = " and ".join(conds)
+        ok = "tm_isdst" in txt and "daylight" in txt
+        rep.check(ok, rule, ctx.fkey(f, None, "altzone-guard"), f.loc(n),
+                  "time.altzone is used only under `tm_isdst == 1 and "
+                  "time.daylight`",
+                  "time.altzone is used under the condition `%s`: the "
+                  "daylight offset must apply only when daylight saving is "
+                  "defined for the zone *and* currently in effect (a zone "
+                  "with DST rules reports its summer offset in winter)" %
+                  (txt or "always"), ("C18",))
+    also = [n for n in walk_no_nested(f.node)
+            if isinstance(n, ast.Attribute) and n.attr == "timezone" and
+            U(n.value) == "time"]
+    rep.check(bool(also), rule, ctx.fkey(f, None, "standard-offset"),
+              f.loc(), "the standard offset is time.timezone",
+              "get_local_time_zone no longer reads time.timezone", ("C18",),
+              nontrivial=False)
+
+
+RULES.update({"R39": r39_no_magic_lengths, "R40": r40_duration_form,
+              "R41": r41_mixed_rounding, "R42": r42_dst_condition})
+
+
+# ------------------------------------------------------------------- R43
+from .zone import derivation, KEY_GETTERS    # noqa: E402
+
+
+def r43_zone_aligned_fields(ctx):
+    """Date/time fields of two different time points are compared or
+    subtracted only after one was re-expressed in the other's UTC offset (or
+    both in UTC): `a.get_second_of_day() != b.get_second_of_day()` says
+    nothing about instants when the offsets differ."""
+    rep = ctx.rep
+    rule = "R43.zone-aligned-fields"
+    rep.need_anchor(rule, "functions scanned")
+    n_f = n_pairs = 0
+
+    def getter_of(f, e, depth=0):
+        """(receiver expr, getter name) if e is (a local bound once to) a
+        key-getter call."""
+        if isinstance(e, ast.Subscript):
+            e = e.value
+        if isinstance(e, ast.Call) and isinstance(e.func, ast.Attribute) \
+                and e.func.attr in KEY_GETTERS:
+            return e.func.value, e.func.attr
+        if isinstance(e, ast.Name) and depth < 3:
+            ds = [n for n in walk_no_nested(f.node)
+                  if isinstance(n, ast.Assign) and any(
+                      U(t) == e.id for t in n.targets)]
+            if len(ds) == 1:
+                return getter_of(f, ds[0].value, depth + 1)
+        return None
+    for f in ctx.model.all_functions():
+        if f.module.name not in ("data", "datetimeoper", "dumpers"):
+            continue
+        n_f += 1
+        for n in walk_no_nested(f.node):
+            pairs = []
+            if isinstance(n, ast.Compare) and len(n.ops) == 1:
+                pairs.append((n.left, n.comparators[0]))
+            elif isinstance(n, ast.BinOp) and isinstance(n.op, ast.Sub):
+                pairs.append((n.left, n.right))
+            for a, b in pairs:
+                ga, gb = getter_of(f, a), getter_of(f, b)
+                if not ga or not gb:
+                    continue
+                ra, ma, ca = derivation(f, ga[0])
+                rb, mb, cb = derivation(f, gb[0])
+                if U(ga[0]) == U(gb[0]):
+                    continue
+                n_pairs += 1
+                aligned = ("to_utc" in ma and "to_utc" in mb)
+                for meths, calls, other in ((ma, ca, gb[0]), (mb, cb, ga[0])):
+                    for m_, c_ in zip(meths, calls):
+                        if m_ == "to_time_zone" and c_.args and U(
+                                c_.args[0]).endswith("._time_zone"):
+                            aligned = True
+                rep.check(
+                    aligned, rule, ctx.fkey(f, n, "aligned"), f.loc(n),
+                    "fields of two points are compared after zone alignment",
+                    "%s compares/subtracts %s() of `%s` and `%s`, two "
+                    "different time points, without first re-expressing one "
+                    "in the other's UTC offset: equal instants written in "
+                    "different offsets give different fields" % (
+                        f.qual, ga[1], U(ga[0]), U(gb[0])),
+                    ("C13", "C02", "C06"))
+    rep.anchor(rule, "functions scanned", n_f)
+    rep.ok(rule, "package:zone-aligned-fields", "-",
+           "%d functions scanned, %d direct field comparisons between two "
+           "points, all zone-aligned" % (n_f, n_pairs), ("C13", "C02", "C06"))
+
+
+RULES["R43"] = r43_zone_aligned_fields
